@@ -12,11 +12,23 @@ names as written) and one to three restraint lines. The file text is rendered, r
 Streams
   missing   implementation vs spec `missing` (theorem warnings_eq_missing)        -> kind property
   model     implementation vs model `assign` (the code with fixes C17_1..4)       -> kind correspondence
+  history   the same two comparisons after a history on the parsed object: evaluations / look-ups (they build the cached
+            name index `Atoms._atomsdict`) interleaved with edits of the atom list through every form the library offers
+            (`del shx.atoms[id]`, `Atom.delete()`, `Atom.name = ...`, `add_atom`) and, rarely, `atom.resi = RESI(...)`;
+            then `shx._assign_atoms_to_restraints()` is evaluated again (twice: both results must agree) and compared with
+            the spec on the EDITED atom list (theorem warnings_after_history; the attribute assignment is the open
+            finding C17|history|setResi|*). The edited atom list itself is compared with the model of the edits.
+Files are read with read_string, read_file, or by a second read on an object that has parsed a different file before.
+A diverging case is minimised (one restraint, shortest history, plain read form) before it is reported; one report per
+class of divergence.
 The generator's own by-construction expectation (which pair was left out) is asserted against the spec as well
 (a disagreement there is a harness error, exit 2).
 """
-import itertools
+import contextlib
+import io
 import re
+import tempfile
+from pathlib import Path
 
 from .. import core, gen
 
@@ -124,10 +136,58 @@ def parse_report(name):
 MARK = 'Atom list has no -->'
 
 
-def observe_impl(case):
+def read_case(case):
+    """read the rendered file in the form the case asks for: read_string, read_file, or a second read on an object that
+    has already parsed a different file"""
     from shelxfile import Shelxfile
     shx = Shelxfile()
-    shx.read_string(render(case))
+    text = render(case)
+    how = case.get('read', 'string')
+    if how == 'twice':
+        # same structure with every second atom left out and a restraint on an atom that does not exist
+        other = dict(case, blocks=[[b[0], b[1], b[2][::2], b[3]] for b in case['blocks']], restraints=['SADI C77 N88'] + list(case['restraints']))
+        shx.read_string(render(other))
+        shx.read_string(text)
+    elif how == 'file':
+        with tempfile.TemporaryDirectory() as tmp:
+            f = Path(tmp) / 'c17.res'
+            f.write_text(text)
+            shx.read_file(str(f))
+    else:
+        shx.read_string(text)
+    return shx
+
+
+def apply_op(shx, op, k):
+    from shelxfile.shelx.cards import RESI
+    kind = op[0]
+    if kind == 'check':
+        shx._assign_atoms_to_restraints()
+    elif kind == 'touch':
+        shx.atoms.get_atom_by_name(op[1])
+    elif kind == 'delItem':
+        a = shx.atoms.all_atoms[op[1]]
+        del shx.atoms[a.atomid]
+    elif kind == 'delete':
+        shx.atoms.all_atoms[op[1]].delete()
+    elif kind == 'rename':
+        shx.atoms.all_atoms[op[1]].name = op[2]
+    elif kind == 'add':
+        shx.add_atom(name=op[1], coordinates=[0.9 - 0.01 * k, 0.8 - 0.02 * k, 0.7 + 0.01 * k], element=op[1][0].upper(),
+                     uvals=[0.04, 0.04, 0.04, 0.0, 0.0, 0.0])
+    elif kind == 'setResi':
+        shx.atoms.all_atoms[op[1]].resi = RESI(shx, ['RESI', str(op[2])])
+    else:
+        raise ValueError(op)
+
+
+def driver_ops(ops):
+    """the history as the model sees it: the parse ends with one evaluation; a look-up builds the index like one"""
+    return [['check']] + [['check'] if op[0] == 'touch' else list(op) for op in ops]
+
+
+def observe_impl(case):
+    shx = read_case(case)
     atoms, _ = structure(case)
     got_atoms = [[a.name, a.resinum] for a in shx.atoms]
     if got_atoms != atoms:
@@ -135,13 +195,27 @@ def observe_impl(case):
     got_restr = [str(r) for r in shx.restraints]
     if [' '.join(g.split()) for g in got_restr] != [' '.join(r.split()) for r in case['restraints']]:
         return dict(error=f'restraints parsed {got_restr}, file has {case["restraints"]}')
+    messages = shx.restraint_errors
+    ops = case.get('ops')
+    if ops:
+        with contextlib.redirect_stdout(io.StringIO()):
+            for k, op in enumerate(ops):
+                try:
+                    apply_op(shx, op, k)
+                except Exception as e:
+                    return dict(error=f'history op {op} raised {type(e).__name__}: {e}')
+            messages = shx._assign_atoms_to_restraints()
+            again = shx._assign_atoms_to_restraints()
+        if again != messages:
+            return dict(error=f'second evaluation differs from the first: {messages} / {again}')
     lists = []
-    for m in shx.restraint_errors:
+    for m in messages:
         if MARK in m:
             names = m.split(MARK, 1)[1]
             names = re.sub(r'\*\*\*\s*$', '', names.strip()).strip()
             lists.append(sorted({parse_report(n.strip()) for n in names.split(',') if n.strip()}))
-    return dict(lists=[[list(p) for p in l] for l in lists], nmsg=len(shx.restraint_errors), raw=list(shx.restraint_errors))
+    return dict(lists=[[list(p) for p in l] for l in lists], nmsg=len(messages), raw=list(messages),
+                atoms_after=[[a.name, a.resinum] for a in shx.atoms])
 
 
 def pairset(l):
@@ -187,6 +261,81 @@ def signature(kmode, toks, pairs, direction, stream):
     return f'C17|{stream}|{site}|{direction}'
 
 
+def requests_for(case):
+    atoms, resis = structure(case)
+    reqs = []
+    for line in case['restraints']:
+        kw, toks = split_restraint(line)
+        rq = dict(p='C17', op='check', atoms=atoms, resis=resis, kw=kw, toks=toks)
+        if case.get('ops'):
+            rq['ops'] = driver_ops(case['ops'])
+        reqs.append(rq)
+    return reqs
+
+
+def judge(case, obs, rs):
+    """compare one observed case with the driver's answers (one per restraint)"""
+    spec_lists = [pairset(r['spec']['missing']) for r in rs]
+    model_lists = [None if r['model']['err'] else pairset(r['model']['reported']) for r in rs]
+    got = [pairset(l) for l in obs['lists']]
+    exp_spec = [l for l in spec_lists if l]
+    exp_model = [l for l in model_lists if l]
+    anymissing = any(spec_lists)
+    open_msg = any(r['spec']['classKnown'] is False for r in rs)   # unknown class: the class message is not constrained
+    bad_prop = got != exp_spec or (not anymissing and not open_msg and obs['nmsg'] != 0)
+    bad_model = got != exp_model or ((obs['nmsg'] != 0) != any(r['model']['anyMessage'] for r in rs if not r['model']['err']))
+    return dict(spec_lists=spec_lists, model_lists=model_lists, got=got, exp_spec=exp_spec, exp_model=exp_model,
+                anymissing=anymissing, bad_prop=bad_prop, bad_model=bad_model)
+
+
+def one(ctx, case):
+    """observe and judge a single case (used while minimising a failing one)"""
+    obs = observe_impl(case)
+    if 'error' in obs:
+        return None
+    rs = ctx.driver.batch(requests_for(case))
+    j = judge(case, obs, rs)
+    j['obs'] = obs
+    j['rs'] = rs
+    return j
+
+
+def minimise(ctx, case, want_prop):
+    """smallest sub-case that still diverges in the same way: one restraint, then the shortest history"""
+    def still(c):
+        j = one(ctx, c)
+        return j is not None and (j['bad_prop'] if want_prop else (j['bad_model'] and not j['bad_prop']))
+    case = {k: v for k, v in case.items() if k != 'expect'}
+    if len(case['restraints']) > 1:
+        for line in case['restraints']:
+            c = dict(case, restraints=[line])
+            if still(c):
+                case = c
+                break
+    ops = list(case.get('ops') or [])
+    changed = True
+    while changed and ops:
+        changed = False
+        for i in range(len(ops)):
+            trial = ops[:i] + ops[i + 1:]
+            # indices of later ops refer to positions in the atom list: only drop an op if the rest stays meaningful
+            c = dict(case, ops=trial)
+            try:
+                ok = still(c)
+            except Exception:
+                ok = False
+            if ok:
+                ops = trial
+                case = c
+                changed = True
+                break
+    if case.get('read', 'string') != 'string':
+        c = dict(case, read='string')
+        if still(c):
+            case = c
+    return case
+
+
 def evaluate(ctx, cases, stream=None):
     reqs = []
     idx = []
@@ -194,10 +343,8 @@ def evaluate(ctx, cases, stream=None):
     for ci, case in enumerate(cases):
         obs = observe_impl(case)
         impls.append(obs)
-        atoms, resis = structure(case)
-        for ri, line in enumerate(case['restraints']):
-            kw, toks = split_restraint(line)
-            reqs.append(dict(p='C17', op='check', atoms=atoms, resis=resis, kw=kw, toks=toks))
+        for ri, rq in enumerate(requests_for(case)):
+            reqs.append(rq)
             idx.append((ci, ri))
     ans = ctx.driver.batch(reqs)
     ctx.stream('missing')
@@ -208,77 +355,91 @@ def evaluate(ctx, cases, stream=None):
     for ci, case in enumerate(cases):
         obs = impls[ci]
         rs = per_case.get(ci, [])
+        hist = bool(case.get('ops'))
+        if hist:
+            ctx.stream('history')
         if 'error' in obs:
-            ctx.fail('C17|parse', f'generated file not parsed as constructed: {obs["error"]}',
+            ctx.fail('C17|history|error' if hist and 'history op' in obs['error'] or 'second evaluation' in obs['error'] else 'C17|parse',
+                     f'generated file / history not processed as constructed: {obs["error"]}',
                      dict(case=case, stream='model', actual=obs), kind='correspondence')
             continue
-        if any(not r['spec']['wf'] for r in rs):
+        if any(not r['spec']['wfData'] for r in rs):
             raise RuntimeError(f'C17 generator left the stated domain (WellFormed false): {case}')
-        spec_lists = [pairset(r['spec']['missing']) for r in rs]
-        if 'expect' in case and case['expect'] is not None:
+        if hist and obs['atoms_after'] != rs[0]['spec']['atomsAfter']:
+            ctx.fail('C17|history|atom-list', f'after {case["ops"]} the atom list is {obs["atoms_after"]}, the model of the edits says '
+                     f'{rs[0]["spec"]["atomsAfter"]}', dict(case=case, stream='history', actual=obs['atoms_after'],
+                                                             model=rs[0]['spec']['atomsAfter']), kind='correspondence')
+            continue
+        j = judge(case, obs, rs)
+        if case.get('expect') is not None and not hist:
             want = [pairset(e) for e in case['expect']]
-            if want != spec_lists:
-                raise RuntimeError(f'C17 generator expectation {want} differs from spec {spec_lists}: {case}')
-        model_lists = [None if r['model']['err'] else pairset(r['model']['reported']) for r in rs]
-        got = [pairset(l) for l in obs['lists']]
-        exp_spec = [l for l in spec_lists if l]
-        exp_model = [l for l in model_lists if l]
+            if want != j['spec_lists']:
+                raise RuntimeError(f'C17 generator expectation {want} differs from spec {j["spec_lists"]}: {case}')
         kinds = [classify_case(*split_restraint(line), r['spec']) for line, r in zip(case['restraints'], rs)]
         tags = sorted({t for _, tt in kinds for t in tt})
-        anymissing = any(spec_lists)
+        anymissing = j['anymissing']
         addressed_other = any(a is not None and a != [0] for r in rs for a in r['spec']['addressed'])
-        ctx.count(['c', case['blocks'], case['restraints'], case.get('eqiv'), case.get('where')],
-                  nontrivial=addressed_other or anymissing,
-                  sample=dict(restraints=case['restraints'], blocks=[[b[0], b[1], b[2]] for b in case['blocks']],
-                              impl=obs['raw'][:4], spec=spec_lists) if (addressed_other and anymissing) else None,
+        edits = [op[0] for op in (case.get('ops') or []) if op[0] not in ('check', 'touch')]
+        ctx.count(['c', case['blocks'], case['restraints'], case.get('eqiv'), case.get('where'), case.get('ops'), case.get('read')],
+                  nontrivial=(addressed_other or anymissing) and (not hist or bool(edits)),
+                  sample=dict(restraints=case['restraints'], blocks=[[b[0], b[1], b[2]] for b in case['blocks']], ops=case.get('ops'),
+                              impl=obs['raw'][:4], spec=j['spec_lists']) if (addressed_other and anymissing) else None,
                   tags=tags + ['missing' if anymissing else 'all-exist', f'nres={len([b for b in case["blocks"] if b[1] > 0])}',
-                               f'nrestr={len(case["restraints"])}'] + ['kwd=' + line.split()[0].split('_')[0].upper() for line in case['restraints']])
-        # --- implementation vs spec (the property) ---------------------------------------------------
-        open_msg = any(r['spec']['classKnown'] is False for r in rs)   # unknown class: the class message is not constrained
-        bad_prop = got != exp_spec or (not anymissing and not open_msg and obs['nmsg'] != 0)
-        bad_model = got != exp_model or ((obs['nmsg'] != 0) != any(r['model']['anyMessage'] for r in rs if not r['model']['err']))
-        if not (bad_prop or bad_model):
+                               f'nrestr={len(case["restraints"])}', 'read=' + case.get('read', 'string')]
+                  + ['kwd=' + line.split()[0].split('_')[0].upper() for line in case['restraints']]
+                  + (['history'] + ['op=' + e for e in edits] if hist else []))
+        if not (j['bad_prop'] or j['bad_model']):
             continue
-        # minimise: does one restraint of the file fail alone?
-        culprit = None
-        if len(case['restraints']) > 1:
-            for ri in range(len(case['restraints'])):
-                sub = dict(case, restraints=[case['restraints'][ri]])
-                sub.pop('expect', None)
-                o2 = observe_impl(sub)
-                if 'error' in o2:
-                    continue
-                g2 = [pairset(l) for l in o2['lists']]
-                e2 = [spec_lists[ri]] if spec_lists[ri] else []
-                m2 = [model_lists[ri]] if model_lists[ri] else []
-                if (bad_prop and g2 != e2) or (bad_model and not bad_prop and g2 != m2):
-                    culprit = (ri, sub, o2)
+        # --- a divergence: minimise it (a bounded number of times per run), then name its site -------------
+        want_prop = j['bad_prop']
+        rcase = case
+        # one report per class of divergence: (stream, keyword modes, token kinds, edit ops, direction of the difference)
+        fg = {p for l in j['got'] for p in l}
+        fe = {p for l in (j['exp_spec'] if want_prop else j['exp_model']) for p in l}
+        pre = ('P' if want_prop else 'M', tuple(tags), tuple(sorted(set(edits))), bool(fg - fe), bool(fe - fg))
+        seen = ctx.__dict__.setdefault('_c17_seen', set())
+        if pre in seen:
+            continue
+        seen.add(pre)
+        if len(seen) > 30:
+            continue
+        jj = None
+        minimised = False
+        if len(seen) <= 10:
+            rcase = minimise(ctx, case, want_prop)
+            jj = one(ctx, rcase)
+            minimised = True
+        if jj is None or not (jj['bad_prop'] if want_prop else jj['bad_model']):
+            rcase, jj, minimised = case, dict(j, obs=obs, rs=rs), False
+        robs, rrs = jj['obs'], jj['rs']
+        rgot, rspec, rmodel = jj['got'], jj['exp_spec'], jj['exp_model']
+        # the restraint whose expectation differs first gives the keyword mode of the signature
+        ri, pos = 0, 0
+        for i, l in enumerate(jj['spec_lists']):
+            if l:
+                if pos >= len(rgot) or rgot[pos] != l:
+                    ri = i
                     break
-        if culprit:
-            ri, rcase, robs = culprit
-            kmode, _ = kinds[ri]
-            rgot = [pairset(l) for l in robs['lists']]
-            rspec = [spec_lists[ri]] if spec_lists[ri] else []
-            rmodel = [model_lists[ri]] if model_lists[ri] else []
-        else:
-            ri = 0
-            rcase, robs, rgot, rspec, rmodel = case, obs, got, exp_spec, exp_model
-            # signature from the restraint whose expectation differs first
-            pos = 0
-            for i, l in enumerate(spec_lists):
-                if l:
-                    if pos >= len(got) or got[pos] != l:
-                        ri = i
-                        break
-                    pos += 1
-            kmode, _ = kinds[ri]
+                pos += 1
+        kmode, _ = classify_case(*split_restraint(rcase['restraints'][ri]), rrs[ri]['spec'])
         flat_got = {p for l in rgot for p in l}
         flat_spec = {p for l in rspec for p in l}
         flat_model = {p for l in rmodel for p in l}
-        rtoks = [t for line in rcase['restraints'] for t in split_restraint(line)[1]] if culprit is None else split_restraint(rcase['restraints'][0])[1]
-        payload = dict(case=rcase, stream='missing', text=render(rcase), expected=rspec, actual=rgot, messages=robs['raw'], model=rmodel)
-        where = f' (residues {[(b[0], b[1]) for b in rcase["blocks"] if b[1]]})'
-        if bad_prop:
+        rtoks = [t for line in rcase['restraints'] for t in split_restraint(line)[1]]
+        rops = rcase.get('ops') or []
+        payload = dict(case=rcase, stream='history' if rops else 'missing', text=render(rcase), expected=rspec, actual=rgot,
+                       messages=robs['raw'], model=rmodel)
+        where = f' (residues {[(b[0], b[1]) for b in rcase["blocks"] if b[1]]})' + (f' after the history {rops}' if rops else '') + \
+                (f' [read={rcase["read"]}]' if rcase.get('read', 'string') != 'string' else '')
+        # site of a history divergence: the plain attribute assignment if the history has one (open finding), else the last
+        # edit before the final evaluation (every API edit empties the index, so nothing older can be stale)
+        redits = [op[0] for op in rops if op[0] not in ('check', 'touch')]
+        hsig = ''
+        if rops:
+            hsig = 'history|' + ('setResi' if 'setResi' in redits else redits[-1] if redits else 'evaluate') + '|'
+        if minimised and rcase.get('read', 'string') != 'string':
+            hsig += f'read={rcase["read"]}|'        # the read form is part of the site only if the plain form does not diverge
+        if want_prop:
             if flat_got - flat_spec:
                 direction, diff = 'false-warning', flat_got - flat_spec
                 what = f'{rcase["restraints"]}: reports {sorted(diff)}, which exist or are not addressed'
@@ -291,12 +452,17 @@ def evaluate(ctx, cases, stream=None):
             else:
                 direction, diff = 'message-without-missing', set()
                 what = f'{rcase["restraints"]}: every addressed atom exists, yet messages {robs["raw"]}'
-            ctx.fail(signature(kmode, rtoks, diff, direction, 'missing'), what + where, payload)
+            sig = signature(kmode, rtoks, diff, direction, 'missing')
+            if hsig:
+                sig = f'C17|{hsig}{direction}'
+            ctx.fail(sig, what + where, payload)
         else:
             payload['stream'] = 'model'
-            ctx.fail(signature(kmode, rtoks, flat_got ^ flat_model, 'differs', 'model'),
-                     f'{rcase["restraints"]}: implementation reports {rgot} (messages: {robs["nmsg"]}), model {rmodel}' + where, payload,
-                     kind='correspondence')
+            sig = signature(kmode, rtoks, flat_got ^ flat_model, 'differs', 'model')
+            if hsig:
+                sig = f'C17|model|{hsig}differs'
+            ctx.fail(sig, f'{rcase["restraints"]}: implementation reports {rgot} (messages: {robs["nmsg"]}), model {rmodel}' + where,
+                     payload, kind='correspondence')
 
 
 # ------------------------------------------------------------------------------------------------
@@ -528,28 +694,99 @@ def random_case(rng):
     return dict(blocks=blocks, restraints=[b['restraints'][0] for b in built], eqiv=True, where=rng.choice(['head', 'tail']), expect=None)
 
 
+def history_case(rng):
+    """a parsed file, then 1..6 steps: evaluations / look-ups (they build the cached name index) and edits of the atom list
+    through every form the library offers (del atoms[id], Atom.delete(), Atom.name = ..., add_atom) and, rarely, the plain
+    assignment atom.resi = RESI(...); the diagnostics are evaluated again at the end"""
+    for _ in range(50):
+        case = random_case(rng)
+        cur = [[n, b[1], True] for b in case['blocks'] for n in b[2]]      # name, residue, parsed from the file
+        if len(cur) >= 2:
+            break
+    resnums = sorted({b[1] for b in case['blocks']})
+    ops = []
+    edits = 0
+    n = rng.randint(1, 6)
+    while len(ops) < n or not edits:
+        kind = rng.choices(['check', 'touch', 'delItem', 'delete', 'rename', 'add', 'setResi'], [2, 1, 3, 3, 3, 2, 0.3])[0]
+        if kind in ('delItem', 'delete', 'rename', 'setResi') and not cur:
+            kind = 'add'
+        if kind == 'check':
+            ops.append(['check'])
+        elif kind == 'touch':
+            ops.append(['touch', rng.choice(NAMES) + rng.choice(['', '_0', f'_{rng.choice(resnums)}'])])
+        elif kind in ('delItem', 'delete'):
+            # atoms made by add_atom are not lines of the file; deleting those is not part of this property
+            cand = [i for i, c in enumerate(cur) if c[2]]
+            if not cand:
+                continue
+            i = rng.choice(cand)
+            del cur[i]
+            ops.append([kind, i])
+            edits += 1
+        elif kind == 'rename':
+            i = rng.randrange(len(cur))
+            nm = rng.choice(NAMES + ['C9', 'N8', 'c1', 'n2'])
+            if rng.random() < 0.05:
+                nm = nm + '_2'                      # refused by the setter ("Illegal atom name"): nothing changes
+            else:
+                cur[i][0] = nm
+            ops.append(['rename', i, nm])
+            edits += 1
+        elif kind == 'add':
+            nm = rng.choice(NAMES + ['c1', 'o3a'])
+            cur.append([nm, 0, False])
+            ops.append(['add', nm])
+            edits += 1
+        else:
+            i = rng.randrange(len(cur))
+            nn = rng.choice(resnums)
+            cur[i][1] = nn
+            ops.append(['setResi', i, nn])
+            edits += 1
+    case = dict(case, ops=ops, read=rng.choice(['string'] * 8 + ['file', 'twice']))
+    case.pop('expect', None)
+    return case
+
+
+# the inputs of the Lean witnesses of the open finding (history_fails_on, stale_index_misses_moved_atom), replayed on the
+# implementation in every run
+_BLOCKS_A = [['', 0, ['C1', 'c2'], 'implicit'], ['ccf3', 1, ['C1', 'c2'], 'class-first'], ['ccf3', 2, ['C1'], 'class-first'],
+             ['', 7, ['C1', 'C3'], 'class-first']]
+CORPUS = [
+    dict(blocks=_BLOCKS_A, restraints=['SADI_1 C1 C2'], eqiv=False, where='head', ops=[['setResi', 2, 0]]),
+    dict(blocks=_BLOCKS_A, restraints=['SADI_7 C2 C3'], eqiv=False, where='head', ops=[['setResi', 1, 7]]),
+    dict(blocks=_BLOCKS_A, restraints=['SADI_1 C1 C2'], eqiv=False, where='head',
+         ops=[['delItem', 3], ['rename', 0, 'C9'], ['add', 'C1'], ['check']]),
+]
+
+
 def run(ctx):
-    ctx.rule = ('generated files: residue 0 plus 0..5 RESI blocks of 1..3 classes (one may be the empty class), atoms C1 N2 O3A C14B; '
+    ctx.rule = ('generated files: residue 0 plus 0..5 RESI blocks of 1..3 classes (one may be the empty class), atoms C1 N2 O3A C14B N5; '
                 '1..3 restraints of 13 keywords x keyword suffix (none, _0, _n existing, _n not existing, _CLASS known/unknown, _*) x '
                 'token patterns (bare, _n, _0, _*, $E, <, >, _$n); every addressed atom present or exactly one absent; case variants of '
-                'names, classes and keywords; distinct by (blocks, restraint lines); non-trivial = some token addresses residues other '
-                'than [0], or an atom is missing')
+                'names, classes and keywords; read through read_string / read_file / a second read on a used object; histories of 1..6 '
+                'steps (evaluate, look-up, del atoms[id], Atom.delete, rename, add_atom, atom.resi = ...) followed by a new evaluation; '
+                'distinct by (blocks, restraint lines, history, read form); non-trivial = some token addresses residues other '
+                'than [0] or an atom is missing, and for histories at least one edit')
     ctx.assumptions = ['keyword carries at most one "_"; residue numbers on atoms are written without leading zeros (wfTok); '
                        'atom names carry no "_" (wfFile); ASCII', 'all residues = the residues defined by RESI cards (number > 0); '
                        'residue 0 is addressed only by default or by _0 (this is what tests/test_restraints.py fixes for NAME_*)',
-                       'a RESI card without class is registered by the code under the class name RESI; no generated restraint uses that class']
-    thorough = ctx.tier == 'thorough' or ctx.escalated
+                       'a RESI card without class is registered by the code under the class name RESI; no generated restraint uses that class',
+                       'histories: the residue registry is not edited; restraints stay as parsed']
+    thorough = ctx.tier == 'thorough'
+    level = 2 if thorough else 1 if ctx.escalated else 0        # escalated: the anchored sources differ from model_map.json
     _, in_source = restraint_keywords()
     ctx.extra['restraint_keywords_in_source'] = in_source
     if set(in_source) - set(KEYWORDS):
         ctx.note(f'restraint keywords in the source that the table of this check does not know: {sorted(set(in_source) - set(KEYWORDS))}')
     if set(KEYWORDS) - set(in_source):
         ctx.broken.append(f'extract: keywords no longer appended to shx.restraints by _parse_cards: {sorted(set(KEYWORDS) - set(in_source))}')
-    cases = []
+    cases = [dict(c) for c in CORPUS]
     g = list(grid(ctx.rng, thorough))
     if not thorough:
         ctx.rng.shuffle(g)
-        g = g[:ctx.budget(1200, len(g))]
+        g = g[:[1200, 6000][level]]
     else:
         ctx.exhaustive = True
         ctx.extra['grid'] = f'{len(g)} files: layouts x keyword modes x {len(TOKEN_PATTERNS)} token patterns x fill x (present | each single absence, up to 12)'
@@ -557,11 +794,16 @@ def run(ctx):
     kc = list(keyword_cross(ctx.rng, thorough))
     if not thorough:
         ctx.rng.shuffle(kc)
-        kc = kc[:500]
+        kc = kc[:[500, 2000][level]]
     else:
         ctx.extra['keyword_cross'] = f'{len(kc)} files: 13 keywords x parameter forms x keyword suffixes x {len(TOKEN_PATTERNS)} token patterns on 4 layouts'
     cases += kc
-    for _ in range(ctx.budget(600, 60000)):
-        cases.append(random_case(ctx.rng))
+    for i in range([600, 5000, 60000][level]):
+        c = random_case(ctx.rng)
+        if i % 10 == 0:
+            c['read'] = 'file' if i % 20 else 'twice'
+        cases.append(c)
+    for _ in range([1500, 8000, 40000][level]):
+        cases.append(history_case(ctx.rng))
     for i in range(0, len(cases), 2000):
         evaluate(ctx, cases[i:i + 2000])
